@@ -33,7 +33,7 @@ def main():
         return mod.replay(a.replay)
     chk = common.Check(a.prop, a.tier)
     try:
-        build = common.lean_build()
+        build = common.lean_build(common.prop_modules(a.prop))
         proof_ok = chk.lean(build)
         if not build.ok:
             print(build.log[-3000:])
